@@ -300,6 +300,24 @@ func Catalogue() []Op {
 			return q.Find(&us).Error
 		}})
 
+	// ---- handles derived from the caller's handle with their own context and other session options
+	add(Op{Name: "ctx_session_options_read", Kind: "query", Main: "users", Expect: cat(ex("User", "find", "u1"), ex("Pet", "find", "pet1", "pet2")),
+		Run: func(db *gorm.DB) error {
+			other := context.WithValue(context.Background(), ctxKey{}, "foreign-context")
+			_ = db.Session(&gorm.Session{NewDB: true, Context: other})
+			_ = db.Session(&gorm.Session{NewDB: true, Context: other, SkipHooks: true})
+			_ = db.Session(&gorm.Session{Context: other, PrepareStmt: true})
+			var us []fam.User
+			return db.Preload("Pets").Where("id = ?", 1).Find(&us).Error
+		}})
+	add(Op{Name: "ctx_session_options_write", Kind: "update", Write: true, Main: "users", Expect: ex("User", "update", ""),
+		Run: func(db *gorm.DB) error {
+			other := context.WithValue(context.Background(), ctxKey{}, "foreign-context")
+			_ = db.Session(&gorm.Session{NewDB: true, Context: other})
+			_ = db.Session(&gorm.Session{NewDB: true, Context: other, SkipDefaultTransaction: true})
+			return db.Model(&fam.User{}).Where("id = ?", 1).Update("age", 56).Error
+		}})
+
 	// ---- explicit transactions (C18: context at any nesting) ------------------------------
 	add(Op{Name: "tx_nested_create", Kind: "tx", Write: true, Main: "users",
 		Expect: cat(ex("User", "create", "n1"), ex("Pet", "create", "petN")),
